@@ -221,6 +221,10 @@ fn own_node(own: Own, cx: &Cx) -> Option<*const Node> {
 fn clone_src(src: Src, cx: &Cx) -> Option<(Cc<Node>, u32)> {
     let id = src_id(src, cx)?;
     let cell = src_cell(src, cx)?;
+    // at the documented limit only the pool operations (Act::Bulk) try to acquire: they expect the panic
+    if w().m.borrow().holders(id).1 >= STRONG_LIMIT {
+        return None;
+    }
     let _g = FrameGuard::api(Frame::ApiOther);
     let c = cell.borrow().as_ref().map(|c| c.clone())?;
     drop(_g);
@@ -471,6 +475,9 @@ pub fn exec(a: &Act, cx: &Cx) {
         #[cfg(feature = "weak-ptrs")]
         Act::Downgrade { src, dst } => {
             if let (Some(id), Some(cell)) = (src_id(*src, cx), src_cell(*src, cx)) {
+                if wd.m.borrow().weak_holders(id).1 >= WEAK_LIMIT {
+                    return;
+                }
                 let _t = TruncPending::new();
                 wd.pending_side.borrow_mut().push(BoxOwner::Node(id));
                 let wk = {
@@ -489,6 +496,11 @@ pub fn exec(a: &Act, cx: &Cx) {
         #[cfg(feature = "weak-ptrs")]
         Act::WClone { src, dst } => {
             let t = wloc_target(*src, cx);
+            if let WT::To(id) = t {
+                if wd.m.borrow().weak_holders(id).1 >= WEAK_LIMIT {
+                    return;
+                }
+            }
             let wk = {
                 let _g = FrameGuard::api(Frame::ApiOther);
                 with_weak(*src, cx, |x| x.clone())
@@ -547,6 +559,145 @@ pub fn exec(a: &Act, cx: &Cx) {
             }
         }
         Act::Query => oracle::query(wd, cx.me()),
+        Act::Bulk { src, n, via } => op_bulk(*src, *n, *via, cx),
+        Act::BulkDrop { k } => op_bulk_drop(*k, cx),
+        #[cfg(feature = "weak-ptrs")]
+        Act::BulkWeak { src, n, via } => op_bulk_weak(*src, *n, *via, cx),
+        #[cfg(feature = "weak-ptrs")]
+        Act::BulkWeakDrop { k } => op_bulk_weak_drop(*k, cx),
+        #[cfg(not(feature = "weak-ptrs"))]
+        Act::BulkWeak { .. } | Act::BulkWeakDrop { .. } => {}
+    }
+}
+
+// ---------------------------------------------------------------------------------------------------------------
+// the program's handle pools: how counts get near the documented limits (16382 Cc, 32767 Weak per allocation)
+
+/// Calls `f` (an acquisition that panics when the limit is reached); Err = it panicked.
+fn acquire<R>(f: impl FnOnce() -> R) -> Result<R, ()> {
+    let wd = w();
+    let _g = FrameGuard::api(Frame::ApiOther);
+    wd.expected_panics.set(wd.expected_panics.get() + 1);
+    let r = catch_unwind(AssertUnwindSafe(f));
+    wd.expected_panics.set(wd.expected_panics.get().saturating_sub(1));
+    r.map_err(|_| ())
+}
+
+fn op_bulk(src: Src, n: u16, via: Option<WLoc>, cx: &Cx) {
+    let wd = w();
+    if !cx.is_top() {
+        return;
+    }
+    let (Some(id), Some(cell)) = (src_id(src, cx), src_cell(src, cx)) else { return };
+    #[cfg(feature = "weak-ptrs")]
+    let via = via.filter(|l| wloc_target(*l, cx) == WT::To(id));
+    #[cfg(not(feature = "weak-ptrs"))]
+    let via: Option<WLoc> = { let _ = via; None };
+    let mut have = wd.m.borrow().holders(id).1;
+    for _ in 0..n {
+        let r: Result<Option<Cc<Node>>, ()> = match via {
+            #[cfg(feature = "weak-ptrs")]
+            Some(l) => acquire(|| with_weak(l, cx, |x| x.upgrade()).flatten()),
+            _ => acquire(|| cell.borrow().as_ref().map(|c| c.clone())),
+        };
+        match r {
+            Ok(Some(c)) => {
+                // beyond the documented limit: C16's own check (p_ptr) judges the missing panic; here the run goes on and
+                // the oracles of the other properties see what the over-full counter does to the object
+                if have >= STRONG_LIMIT {
+                    bump(&wd.stats.beyond_limit);
+                }
+                have += 1;
+                wd.m.borrow_mut().bulk_add(id, 1, false);
+                oracle::acquired(wd, id, if via.is_some() { oracle::Leave::Upgrade } else { oracle::Leave::Clone });
+                wd.bulk.borrow_mut().push((id, c));
+            }
+            Ok(None) => break,
+            Err(()) => {
+                bump(&wd.stats.limit_refusals);
+                if have < STRONG_LIMIT {
+                    wd.err("C16", "refused_below_strong_limit", "refused_below_limit".into(), format!("acquiring handle number {} to #{} panicked (limit {})", have + 1, id, STRONG_LIMIT));
+                }
+                break;
+            }
+        }
+    }
+}
+
+fn op_bulk_drop(k: u16, cx: &Cx) {
+    let wd = w();
+    if !cx.is_top() {
+        return;
+    }
+    for _ in 0..k {
+        let Some((id, c)) = wd.bulk.borrow_mut().pop() else { break };
+        wd.m.borrow_mut().bulk_add(id, -1, false);
+        oracle::lost_holder(wd, id);
+        if wd.m.borrow().holders(id).1 == 0 {
+            wd.m.borrow_mut().latch();
+        }
+        release(Some(c), Some(id), cx);
+        if wd.failed() {
+            break;
+        }
+    }
+}
+
+#[cfg(feature = "weak-ptrs")]
+fn op_bulk_weak(src: Src, n: u16, via: Option<WLoc>, cx: &Cx) {
+    let wd = w();
+    if !cx.is_top() {
+        return;
+    }
+    let (Some(id), Some(cell)) = (src_id(src, cx), src_cell(src, cx)) else { return };
+    let via = via.filter(|l| wloc_target(*l, cx) == WT::To(id));
+    let mut have = wd.m.borrow().weak_holders(id).1;
+    let mut first = true;
+    for _ in 0..n {
+        let _t = TruncPending::new();
+        if via.is_none() && first {
+            wd.pending_side.borrow_mut().push(BoxOwner::Node(id));
+        }
+        let r: Result<Option<Weak<Node>>, ()> = match via {
+            Some(l) => acquire(|| with_weak(l, cx, |x| x.clone())),
+            None => acquire(|| cell.borrow().as_ref().map(|c| c.downgrade())),
+        };
+        first = false;
+        match r {
+            Ok(Some(wk)) => {
+                if have >= WEAK_LIMIT {
+                    bump(&wd.stats.beyond_limit);
+                }
+                have += 1;
+                wd.m.borrow_mut().bulk_add(id, 1, true);
+                if via.is_none() {
+                    oracle::acquired(wd, id, oracle::Leave::Downgrade);
+                }
+                wd.wbulk.borrow_mut().push((id, wk));
+            }
+            Ok(None) => break,
+            Err(()) => {
+                bump(&wd.stats.limit_refusals);
+                if have < WEAK_LIMIT {
+                    wd.err("C16", "refused_below_weak_limit", "refused_below_limit".into(), format!("acquiring Weak pointer number {} to #{} panicked (limit {})", have + 1, id, WEAK_LIMIT));
+                }
+                break;
+            }
+        }
+    }
+}
+
+#[cfg(feature = "weak-ptrs")]
+fn op_bulk_weak_drop(k: u16, cx: &Cx) {
+    let wd = w();
+    if !cx.is_top() {
+        return;
+    }
+    for _ in 0..k {
+        let Some((id, wk)) = wd.wbulk.borrow_mut().pop() else { break };
+        wd.m.borrow_mut().bulk_add(id, -1, true);
+        let _g = FrameGuard::api(Frame::ApiOther);
+        drop(wk);
     }
 }
 
@@ -732,6 +883,11 @@ fn op_upgrade(src: WLoc, dst: Dst, cx: &Cx) {
     }
     if !dst_exists(dst, cx) {
         return;
+    }
+    if let WT::To(id) = t {
+        if wd.m.borrow().holders(id).1 >= STRONG_LIMIT {
+            return;
+        }
     }
     let verdict = oracle::upgrade_expectation(wd, t);
     let res = {
@@ -961,7 +1117,11 @@ fn op_register(own: Own, action: &ActionSpec, dst: u8, cx: &Cx) {
     let mut pin = PinGuard(Some(pin), oid);
     // captures (acquisitions first)
     let cap = action.cap.and_then(|s| clone_src(s, cx));
-    let (wcap, wt) = match action.wcap {
+    let wcap_allowed = action.wcap.filter(|l| match wloc_target(*l, cx) {
+        WT::To(id) => wd.m.borrow().weak_holders(id).1 < WEAK_LIMIT,
+        _ => true,
+    });
+    let (wcap, wt) = match wcap_allowed {
         Some(l) => {
             let t = wloc_target(l, cx);
             let wk = {
